@@ -29,6 +29,10 @@ type Scenario struct {
 	// Schedules: instead of enumerating interleavings, run exactly these (each a sequence of proc names, one per step;
 	// when it is used up the first enabled proc runs). For windows that need more requests than the enumeration can afford.
 	Schedules [][]string `json:"schedules,omitempty"`
+	// LateAnswers: Lightning answers are delivered at a scheduling point of their own (lnmodel.Node.LateAnswers).
+	LateAnswers bool `json:"lateanswers,omitempty"`
+	// Lenient: a step of a fixed schedule whose proc is not enabled is replaced by the first enabled proc.
+	Lenient bool `json:"lenient,omitempty"`
 }
 
 type Step struct {
@@ -119,6 +123,7 @@ func RunOne(scn Scenario, tmpl, dir string, tr int, seed int64, choices []string
 	}
 	// concurrent segment
 	w.Conc = true
+	w.Node.LateAnswers = scn.LateAnswers
 	w.Ctl.GateBg = true
 	procs := map[string]*sched.Proc{}
 	lockBlocked := map[string]bool{}
@@ -292,8 +297,14 @@ func RunOne(scn Scenario, tmpl, dir string, tr int, seed int64, choices []string
 					lockBlocked[chosen] = true
 					continue
 				}
-				res.Err = fmt.Errorf("schedule diverged at step %d: %s not enabled (enabled %v)", step, chosen, enabled)
-				return
+				if scn.Lenient && len(scn.Schedules) > 0 && len(enabled) > 0 {
+					// a fixed schedule kept as a regression test: where the code no longer allows the step
+					// (the window it walked into has been closed) the first enabled proc runs instead
+					chosen = enabled[0]
+				} else {
+					res.Err = fmt.Errorf("schedule diverged at step %d: %s not enabled (enabled %v)", step, chosen, enabled)
+					return
+				}
 			}
 		} else {
 			if step == len(choices) {
@@ -393,6 +404,7 @@ func RunOne(scn Scenario, tmpl, dir string, tr int, seed int64, choices []string
 		}
 	}
 	w.Conc = false
+	w.Node.LateAnswers = false
 	w.Ctl.GateBg = false
 	w.NoPost = false
 	w.Exec(world.Op{Op: "sync"})
